@@ -44,7 +44,7 @@ def required_classes(tier):
         out += ["%s.eq:both-inf" % mk, "%s.eq:one-inf" % mk, "%s.eq:finite" % mk, "%s.double:identity" % mk]
     for p in PATHS:
         out.append("secp.jacobian_add:%s" % p)
-    out += ["secp.jacobian_double:identity", "secp.jacobian_double:finite", "secp:identity-result-fed-back"]
+    out += ["secp.jacobian_double:identity", "secp.jacobian_double:finite", "secp:identity-result-fed-back", "secp.jacobian_add:equal-y", "opt.bn128.add:equal-y", "opt.bls12_381.add:equal-y"]
     return out
 
 
@@ -81,6 +81,9 @@ def drive_module(rec, modkey, classes, F, rng, n, tag, b_lib=None):
             Q = P
         elif path == "P=-Q":
             Q = (P[0], F.neg(P[1]))
+        if path == "generic" and j % 12 == 0:
+            Q = (Q[0], P[1])                      # distinct points with EQUAL y (different x): still the generic chord
+            rec.case("%s.add:equal-y" % modkey, None, nontrivial=False)
         rep1 = CG.INF_REPS[(j // 4) % 4]
         rep2 = CG.INF_REPS[(j // 16) % 4]
         if path == "identity-operand":
@@ -172,6 +175,9 @@ def secp_part(rec, quick, do_exh):
             B = A
         elif path == "P=-Q":
             B = (A[0], F.neg(A[1]))
+        elif path == "generic" and j % 12 == 0:
+            B = (B[0], A[1])                      # equal y, different x
+            rec.case("secp.jacobian_add:equal-y", None, nontrivial=False)
         elif path == "identity-operand":
             if (j // 4) % 3 == 0:
                 A = None
